@@ -226,7 +226,10 @@ func (w *w1World) Gen(rng *rand.Rand, property, tier string) (any, simrt.Sched) 
 		v0.Paths = append(v0.Paths, mkPath(n))
 	}
 	always := false
-	if (focus == "C16" || focus == "C17") && rng.Intn(2) == 0 {
+	// C18, one run in four: an always-available path whose readers watch the offline filler (no
+	// publisher for long stretches) while reloads re-create the path: the teardown half of the property
+	quietAlways := focus == "C18" && rng.Intn(4) == 0
+	if ((focus == "C16" || focus == "C17") && rng.Intn(2) == 0) || quietAlways {
 		// the stream outlives its publishers: an offline filler runs whenever nobody publishes
 		always = true
 		p := &v0.Paths[0]
@@ -244,7 +247,7 @@ func (w *w1World) Gen(rng *rand.Rand, property, tier string) (any, simrt.Sched) 
 
 	// further versions: mutate the previous one
 	nver := rng.Intn(3)
-	if focus == "C15" || focus == "C39" || focus == "C03" {
+	if focus == "C15" || focus == "C39" || focus == "C03" || quietAlways {
 		nver = 1 + rng.Intn(3)
 	}
 	for i := 0; i < nver; i++ {
@@ -260,6 +263,11 @@ func (w *w1World) Gen(rng *rand.Rand, property, tier string) (any, simrt.Sched) 
 			}
 			k := rng.Intn(len(nv.Paths))
 			p := &nv.Paths[k]
+			if quietAlways && j == 0 && nv.Paths[0].Always {
+				// a change that cannot be applied in place: the always-available path is re-created
+				nv.Paths[0].MaxReaders = nv.Paths[0].MaxReaders%3 + 1
+				continue
+			}
 			switch rng.Intn(10) {
 			case 0, 1, 2: // hot: forward list
 				switch rng.Intn(4) {
@@ -385,7 +393,10 @@ func (w *w1World) Gen(rng *rand.Rand, property, tier string) (any, simrt.Sched) 
 		}
 		return w1Pick(rng, targets...)
 	}
-	if always {
+	if quietAlways {
+		// nobody, or one short publisher: the readers mostly see the filler
+		npub = rng.Intn(2)
+	} else if always {
 		// a publisher that writes in a long burst and a rival that arrives at the instant of one of
 		// its writes (the replacement happens while a write of the replaced publisher is in progress)
 		ms := w1Pick[int64](rng, 1, 1, 1, 2)
@@ -1518,6 +1529,12 @@ func (w *w1World) Run(t *testing.T, sc *simrt.Scenario, cfg simrt.Config) simrt.
 	out.Violations = append(out.Violations, res.Violations...)
 	if !res.StepCap {
 		out.Violations = append(out.Violations, w1Oracles(&body, &res, cfg)...)
+	} else {
+		// inconclusive for everything that needs the end of the run; clauses that only look at a
+		// prefix of the history still apply
+		v := &w1Viol{seen: map[string]bool{}}
+		w1C18Destroy(w1Parse(res.History), v)
+		out.Violations = append(out.Violations, v.out...)
 	}
 	out.Nontrivial, out.Abstract = w1Classify(&body, &res, sc.Property)
 	return out
